@@ -361,23 +361,33 @@ class LangGen:
                 st = rng.choice(subs)
                 return {'type': 'subType', 'subType': st, 'stepExpression': s[0]}, st
             if k == 'transitive':
-                # malc's rule: the operand's result type must be the context
-                # type or a subtype of it (so it can be applied again); the
-                # result is typed as the context type, which covers both
-                # readings of e* (start asset included or not)
-                cands = []
-                for f, lst in fields.items():
-                    u = lst[0][1]
-                    if lang.is_sub(u, t):
-                        cands.append((f, u))
-                if rng.random() < cfg.transitive_nonfield and depth > 1:
-                    s = self._gen_nav(t, depth - 1, allow_var)
-                    if s is not None and s[0]['type'] != 'field' and lang.is_sub(s[1], t):
-                        return {'type': 'transitive', 'stepExpression': s[0]}, t
-                if not cands:
-                    continue
-                f, u = rng.choice(sorted(cands))
-                return {'type': 'transitive', 'stepExpression': {'type': 'field', 'name': f}}, t
+                # e* in context T: the operand is generated in the context of
+                # an ancestor-or-self U of T and must yield exactly U.  Then
+                # (i) T is a U ("previous asset is of type U", malc's rule),
+                # (ii) e can be applied again to everything it returns,
+                # (iii) both readings of e* (start asset included or not)
+                # only contain assets of type U, which is also the type the
+                # toolbox's language graph gives to e*.
+                ups = lang.ancestors(t)
+                rng.shuffle(ups)
+                done = None
+                for u in ups:
+                    if rng.random() < cfg.transitive_nonfield and depth > 1:
+                        for _ in range(3):
+                            s = self._gen_nav(u, depth - 1, allow_var)
+                            if s is not None and s[0]['type'] != 'field' and s[1] == u:
+                                done = ({'type': 'transitive', 'stepExpression': s[0]}, u)
+                                break
+                        if done:
+                            break
+                    cands = [f for f, lst in lang.fields_of(u).items() if lst[0][1] == u]
+                    if cands:
+                        f = rng.choice(sorted(cands))
+                        done = ({'type': 'transitive', 'stepExpression': {'type': 'field', 'name': f}}, u)
+                        break
+                if done:
+                    return done
+                continue
         if fields:
             f = rng.choice(sorted(fields))
             return {'type': 'field', 'name': f}, fields[f][0][1]
